@@ -515,6 +515,41 @@ pub fn child_accept_fail(args: &[String]) -> i32 {
         let est_res = exchange(&mut sock, &mut est, 2).await;
         let in_set = sock.binds().contains(&ep);
         let canary = rig::canary_ok().await;
+        // C17: a socket that went through this is closed like any other
+        let close_mode = std::env::var("ACCEPTFAIL_THEN").unwrap_or_default();
+        let mut after_close = json!(null);
+        if close_mode == "close" || close_mode == "drop" {
+            drop(silent.drain(..).collect::<Vec<_>>());
+            let mut close_errors = Vec::new();
+            if close_mode == "close" {
+                match tokio::time::timeout(WAIT, sock.close()).await {
+                    Ok(e) => close_errors = e.iter().map(|x| format!("{x:?}")).collect(),
+                    Err(_) => close_errors.push("close() timed out".into()),
+                }
+            } else {
+                drop(sock);
+                let _ = rig::eventually(WAIT, || !rig::ipc_file_exists(&ep)).await;
+            }
+            // (after a drop "shortly afterwards": bounded wait)
+            let mut refused = false;
+            let deadline = std::time::Instant::now() + WAIT;
+            while std::time::Instant::now() < deadline {
+                if rig::connect_refused(&ep).await.unwrap_or(false) {
+                    refused = true;
+                    break;
+                }
+                tokio::time::sleep(Duration::from_millis(20)).await;
+            }
+            after_close = json!({"mode": close_mode, "ipc_file_left": rig::ipc_file_exists(&ep), "refused": refused, "close_errors": close_errors});
+            println!(
+                "ACCEPTFAIL {}",
+                json!({"ty": ty, "transport": transport, "stallers": stallers, "waiting_ok": waiting_ok, "fresh_ok": fresh_ok, "fresh_err": fresh_err,
+                       "established_ok": est_res.is_ok(), "established_err": est_res.err().unwrap_or_default(),
+                       "in_bind_set": in_set, "canary_ok": canary, "notes": problems, "accept_errors_reported": accept_errors, "after_close": after_close})
+            );
+            return Ok::<(), String>(());
+        }
+        let _ = &after_close;
         println!(
             "ACCEPTFAIL {}",
             json!({"ty": ty, "transport": transport, "stallers": stallers, "waiting_ok": waiting_ok, "fresh_ok": fresh_ok, "fresh_err": fresh_err,
